@@ -192,7 +192,8 @@ Proof.
   - (* UpdateEq *)
     apply on_sim. intros tb Hg. cbn [step_class] in Hk. rewrite (tbl_of_get _ _ _ Hg) in Hk.
     assert (Ht : has_tomb (irows tb) = false).
-    { revert Hk. destruct (has_tomb (irows tb)); intro Hk; [discriminate|reflexivity]. }
+    { revert Hk. destruct (ishort tb); [intro; discriminate|].
+      destruct (has_tomb (irows tb)); intro Hk; [discriminate|reflexivity]. }
     unfold i_update_eq, s_update_eq, abs_tbl. cbn [cols rows].
     destruct (find_col sc (icols tb)) as [i|]; [|reflexivity].
     destruct (find_col wc (icols tb)) as [j|]; [|reflexivity].
@@ -202,7 +203,8 @@ Proof.
   - (* UpdateAll *)
     apply on_sim. intros tb Hg. cbn [step_class] in Hk. rewrite (tbl_of_get _ _ _ Hg) in Hk.
     assert (Ht : has_tomb (irows tb) = false).
-    { revert Hk. destruct (has_tomb (irows tb)); intro Hk; [discriminate|reflexivity]. }
+    { revert Hk. destruct (ishort tb); [intro; discriminate|].
+      destruct (has_tomb (irows tb)); intro Hk; [discriminate|reflexivity]. }
     unfold i_update_all, s_update_all, abs_tbl. cbn [cols rows].
     destruct (find_col sc (icols tb)) as [i|]; [|reflexivity].
     destruct (fits (col_ty i (icols tb)) sv); [|reflexivity].
@@ -379,10 +381,10 @@ Lemma truncate_then_insert_visible_l : forall s t tb b r,
   i_obs1 (fst (i_step (fst (i_step s (Truncate t b))) (Insert t r))) t = TRows (map cname (icols tb)) [r].
 Proof.
   intros s t tb b r Hc Hg Hf.
-  assert (E1 : fst (i_step s (Truncate t b)) = mkIS (put t (mkI (icols tb) [] (imis tb)) (itabs s)) (iidx s)).
+  assert (E1 : fst (i_step s (Truncate t b)) = mkIS (put t (mkI (icols tb) [] (imis tb) false) (itabs s)) (iidx s)).
   { cbn [i_step]. unfold i_on. rewrite Hg. reflexivity. }
   rewrite E1.
-  pose proof (get_put_same _ _ t tb (mkI (icols tb) [] (imis tb)) Hg) as Hg2.
+  pose proof (get_put_same _ _ t tb (mkI (icols tb) [] (imis tb) false) Hg) as Hg2.
   split.
   - unfold i_obs1. cbn [itabs]. rewrite Hg2. cbn [imis icols irows]. rewrite (clean_get _ _ _ Hc Hg). reflexivity.
   - cbn [i_step]. unfold i_on. cbn [itabs]. rewrite Hg2. unfold i_insert. cbn [icols irows imis]. rewrite Hf. cbn [fst].
